@@ -84,12 +84,15 @@ def run(ctx):
             pols.append(S('forbid(principal, action in [%s], resource) when { principal == resource };' % lst))
         vcases.append(case('v%d' % i, 'concurrent-validate', S(sch.text()), ['policies'] + pols, sch.store(), sch.request(), str(r.choice([4, 8, 16]))))
     cases += vcases
+    # containers that hold nothing yet (zero values, the set returned beside a parse error, nil maps): a fresh batch per round
+    zcases = [case('z%d' % i, 'concurrent-zero', str(w), str(30 if quick else 300)) for i, w in enumerate([2, 4, 8, 16])]
+    cases += zcases
     ctx.rule = ('shared policy set (1-5 random or partial-evaluation-heavy policies), entity map, request, batch template with variables and '
                 'value lists; 4-16 goroutines each doing 6 rounds of authorize / batch authorize / MarshalCedar / MarshalJSON / entity-map and value '
                 'accessors / policy inspection on the shared objects under the race detector; results compared with the sequential run, inputs '
                 'snapshotted before and after (text, JSON, raw AST, and structurally with every slice extended to its capacity). Plus %d validation scenarios: '
                 'shared strict and permissive validators over generated schemas (action groups), policies parsed from text incl. action-in-list scopes of '
-                '1-7 entries, entity store and request; verdicts compared with the sequential ones. non-trivial = at least two policies' % len(vcases))
+                '1-7 entries, entity store and request; verdicts compared with the sequential ones. Plus zero-value containers (zero PolicySet, the set returned beside a parse error, nil EntityMap, zero Record / Set / Request) used read-only by 2-16 goroutines, fresh objects every round, compared with copies taken before. non-trivial = at least two policies' % len(vcases))
     go = lib.run_go(cases, 'concurrent', ctx.workdir, timeout_ms=120000, shards=4, binary=lib.HARNESS_RACE)
     bad = 0
     for c in cases:
